@@ -9,7 +9,7 @@ from kfv.rules import coh_rules as C
 from kfv.rules import precond_rules as R
 
 TECHNIQUE = ('ownership (who-may-write) of second-order slots, role guards of compute/broadcast/precondition call sites, '
-             'group-argument coherence, exhaustiveness of memory accounting over declared tensor slots, complementary hook/step guards; cache-coherence rule; configuration-forwarding rule (symmetry_aware etc. reach every layer type)')
+             'group-argument coherence, exhaustiveness of memory accounting over declared tensor slots, complementary hook/step guards; cache-coherence rule; configuration-forwarding rule (symmetry_aware etc. reach every layer type); packing flag of every communicated symmetric matrix')
 EXPLANATION = (
     'Second-order slots are written only by compute_*_inv / broadcast_*_inv; in step() the former run only where '
     'get_rank()==inv_worker(name,X), the latter only under broadcast_inverses() and is_grad_worker(name) on '
